@@ -599,7 +599,7 @@ def impl(c):
                 return 'v%d' % o.version
             return '%d,%d,%s' % (o.first, o.last, hexs(str(o)))
 
-        return ' '.join(_try(f) for f in (t, r, g, cl, st))
+        return ' '.join(_tryc(f) for f in (t, r, g, cl, st))
     if k == 'r2g':
         _, ver, lo, hi = a
         def r2g():
@@ -608,10 +608,10 @@ def impl(c):
             if (int(x), int(y)) != (lo, hi):
                 return '!arguments-modified'
             return plist(hexs(g) for g in out)
-        return _try(r2g)
+        return _tryc(r2g)
     if k == 'c2g':
         _, ver, v, p = a
-        return _try(lambda: hexs(cidr_to_glob(common.make_net(ver, v, p))))
+        return _tryc(lambda: hexs(cidr_to_glob(common.make_net(ver, v, p))))
     if k == 'nmap':
         def it():
             return plist(_show(x) for x in itertools.islice(common.paired(lambda: iter_nmap_range(a[1])), FUEL))
@@ -660,7 +660,7 @@ def oracle(c, got):
         if len(parts) != 5:
             return 'malformed output'
         if sp is None:
-            return None if parts == ['!'] * 5 else 'not a glob, yet a conversion succeeded: %s' % got
+            return None if all(x.startswith('!') for x in parts) and len(parts) == 5 else 'not a glob, yet a conversion succeeded: %s' % got
         lo, hi = sp
         pair = '%d,%d' % (lo, hi)
         if parts[0] != pair:
@@ -682,7 +682,7 @@ def oracle(c, got):
     if k == 'r2g':
         _, ver, lo, hi = a
         if ver != 4:
-            return None if got == '!' else 'IPv6 range converted to globs: %s' % got[:80]
+            return None if got.startswith('!') else 'IPv6 range converted to globs: %s' % got[:80]
         if got.startswith('!'):
             return 'iprange_to_globs raised on an IPv4 range'
         gl = _strs(got)
@@ -702,7 +702,7 @@ def oracle(c, got):
     if k == 'c2g':
         _, ver, v, p = a
         if ver != 4:
-            return None if got == '!' else 'IPv6 CIDR converted to a glob'
+            return None if got.startswith('!') else 'IPv6 CIDR converted to a glob'
         if got.startswith('!'):
             return 'cidr_to_glob raised on an IPv4 CIDR'
         size = 1 << (32 - p)
